@@ -178,6 +178,28 @@ pub fn run_poisson(line: &str) -> String {
                 .collect::<Vec<_>>()
                 .join(" ")
         }
+        // the `_impl` entry points: another lambda factor, another iteration cap
+        (Some("poissoni"), 5) => {
+            let (Some(m), Ok(n), Ok(z), Some(lf)) = (parse_frac(f[1]), f[2].parse::<usize>(), f[3].parse::<i32>(), parse_frac(f[4])) else { return "bad-args".into() };
+            guarded(move || {
+                let l = chemical_elements::isotopic_pattern::poisson::poisson_approximation_impl(m, n, z, lf);
+                if l.iter().all(|q| q.mz.is_finite() && q.intensity.is_finite()) {
+                    format!("ok * {}", show_peaks(&l))
+                } else {
+                    format!("nonfinite {}", l.len())
+                }
+            })
+            .unwrap_or_else(|| "panic".into())
+        }
+        (Some("poissonni"), 5) => {
+            let (Some(m), Some(lf), Ok(mi)) = (parse_frac(f[1]), parse_frac(f[2]), f[3].parse::<usize>()) else { return "bad-args".into() };
+            let ts: Option<Vec<f64>> = f[4].split(',').map(parse_frac).collect();
+            let Some(ts) = ts else { return "bad-args".into() };
+            ts.iter()
+                .map(|t| guarded(|| chemical_elements::isotopic_pattern::poisson::poisson_approximate_n_peaks_of_impl(m, lf, *t, mi).to_string()).unwrap_or_else(|| "panic".into()))
+                .collect::<Vec<_>>()
+                .join(" ")
+        }
         (Some("mz"), 4) => {
             let (Some(m), Ok(z), Some(c)) = (parse_frac(f[1]), f[2].parse::<i32>(), parse_frac(f[3])) else { return "bad-args".into() };
             guarded(move || {
